@@ -307,7 +307,7 @@ def check(res, tier, replay=None):
             w = [(0, "OHx"), (1, "OU["), (2, "OB."), (3, "OB."), (4, "OB."), (20, "OU]"), (21, "OU["),
                  (10, "OB."), (11, "OB."), (12, "OB."), (22, "OU]"), (30, "OHe")]
             cases.append((7, b"".join(OHX(c) if m == "OHx" else ev_bytes(c, m) for (c, m) in w), {"corpus"}))
-            for _ in range(2500 if tier == "quick" else 30000):
+            for _ in range(2500 if tier == "quick" else 20000):
                 cases.append(gen_case(r, res))
             if tier == "thorough":
                 cases += list(exhaustive_cases(4, (1, 2, 3), (2, 3, 4, 5)))
